@@ -197,7 +197,7 @@ def harness_case(case):
         "chunks": [[t, p.hex()] for t, p in plan], "close": close, "bounds": item_bounds(case),
         "reqs": reqs, "exit": case.get("exit", {"k": "normal", "at": 50}), "pause": case.get("pause", 0),
     }
-    for f in ("write_mode", "warm", "api", "params", "close_raises", "notif_post"):
+    for f in ("write_mode", "warm", "api", "params", "close_raises", "notif_post", "ctor_fails"):
         if f in case:
             out[f] = case[f]
     return out
@@ -560,7 +560,14 @@ def chunk_cases(budget, rng):
     return out
 
 
-EXIT_KINDS = ["normal", "exception", "cancel-asyncio", "cancel-anyio"]
+EXIT_KINDS = ["normal", "exception", "cancel-asyncio", "cancel-anyio", "cancel-asyncio-twice"]
+
+
+def exit_spec(ek, at):
+    e = {"k": ek, "at": at}
+    if ek == "cancel-asyncio-twice":
+        e["hops"] = at % 6  # how many loop turns after the first cancellation the second one comes
+    return e
 
 
 def exit_cases(budget, rng):
@@ -579,7 +586,7 @@ def exit_cases(budget, rng):
                     if budget == "quick" and tie == "timers" and at % 2:
                         continue
                     c = {"T": T, "tie": tie, "items": [EP, msg_notif(1), msg_srvreq(2)], "cuts": [60], "t0": 1, "gap": 10 + at,
-                         "reqs": [mk_req(1, 5, spec), mk_req(2, 7, {"mode": "200", "d": 2})], "exit": {"k": ek, "at": at}}
+                         "reqs": [mk_req(1, 5, spec), mk_req(2, 7, {"mode": "200", "d": 2})], "exit": exit_spec(ek, at)}
                     out.append(c)
     # no request at all
     for ek in EXIT_KINDS:
@@ -591,8 +598,8 @@ def exit_cases(budget, rng):
                 for ti, tie in enumerate(TIES):
                     if budget == "quick" and (at + ti) % 2:
                         continue
-                    out.append({"T": T, "tie": tie, "items": [EP], "close": 3, "reqs": [mk_req(1, 5, spec)], "exit": {"k": ek, "at": at}})
-                    out.append({"T": T, "tie": tie, "items": [EP, msg_notif(1)], "close_raises": True, "reqs": [mk_req(1, 5, spec)], "exit": {"k": ek, "at": at}})
+                    out.append({"T": T, "tie": tie, "items": [EP], "close": 3, "reqs": [mk_req(1, 5, spec)], "exit": exit_spec(ek, at)})
+                    out.append({"T": T, "tie": tie, "items": [EP, msg_notif(1)], "close_raises": True, "reqs": [mk_req(1, 5, spec)], "exit": exit_spec(ek, at)})
     return out
 
 
@@ -786,10 +793,16 @@ def invalid_parameter_cases():
     return out
 
 
+def partial_init_cases():
+    """creating one of the two HTTP clients fails: entering raises at once and `_cleanup` runs on a
+    half-built transport (oracle only: the model has no such fault)"""
+    return [finish({"boundary": True, "T": 256, "tie": TIES[n % 3], "ctor_fails": n, "items": [EP], "reqs": [probe_req()]}) for n in (1, 2)]
+
+
 def boundary_cases(budget, rng):
     """arrivals exactly on the timer boundaries of the code (enter timeout, connection cap, 202
     wait); either side of the tie satisfies the property, so these run with the oracle only"""
-    out = invalid_parameter_cases()
+    out = invalid_parameter_cases() + partial_init_cases()
     T = 256
     for tie in TIES:
         for dt in (-1, 0, 1):
